@@ -93,6 +93,10 @@ func newCtx(id, tier string) *Ctx {
 	}
 	c.deadline = startTime.Add(time.Duration(capS) * time.Second)
 	currentCtx = c
+	live.mu.Lock()
+	live.ctx = c
+	live.mu.Unlock()
+	startLiveness()
 	return c
 }
 
@@ -201,6 +205,9 @@ func (c *Ctx) Report(check string, index int64, sig string, cas interface{}, dif
 
 func (c *Ctx) finish() int {
 	wall := time.Since(startTime).Seconds()
+	if pk := atomic.LoadUint64(&heapPeak); pk > 0 {
+		c.Set("peak_heap_mb_seen_by_liveness_monitor", pk>>20)
+	}
 	exit := 0
 	sort.Slice(c.violations, func(i, j int) bool { return c.violations[i].Check < c.violations[j].Check })
 	for _, k := range c.known {
@@ -381,6 +388,7 @@ func (c *Ctx) WatchWall(desc func() string) (done func()) {
 type wallOp struct {
 	desc  func() string
 	start time.Time
+	looks int
 }
 
 func (c *Ctx) wallMonitor() {
@@ -388,8 +396,11 @@ func (c *Ctx) wallMonitor() {
 		time.Sleep(2 * time.Second)
 		c.mu.Lock()
 		var stuck *wallOp
-		for _, op := range c.wallOps {
-			if time.Since(op.start) > 2*time.Minute {
+		for id, op := range c.wallOps {
+			// counted in looks of this monitor, not in elapsed time (a suspended process makes the clock jump)
+			op.looks++
+			c.wallOps[id] = op
+			if op.looks > 60 {
 				o := op
 				stuck = &o
 			}
